@@ -826,6 +826,12 @@ def _reduce_hint_overrides(
             hint_overridden is SENTINEL or
             # Else, this hint is overridden.
             #
+            # This hint is trivially overridden by itself (e.g., the "int" in
+            # "BeartypeConf(hint_overrides={int: int})"). Replacing each
+            # occurrence of a hint by that same hint is a noop. Preserve this
+            # hint as is rather than guarding this hint against recursion, which
+            # requires the overridden hint to differ from this hint *OR*...
+            hint_overridden is hint or
             # If this overridden hint is recursive, this hint has already been
             # overridden by a previously performed reduction. Avoid attempting
             # to reoverride this hint again with the same hint override; doing
